@@ -226,11 +226,16 @@ def expect_guards(ctx, fn, table, where=None):
     for formula, action, meaning in table:
         ctx.count(1, '%s: %s' % (fn.qual, formula))
         from ..normal import flatten_block
-        act = [' '.join(U(a).split()) for a in flatten_block(ast.parse(action).body)]      # same else-elimination as the analysed tree
+        def NT(x):
+            try:
+                return ' '.join(U(canon(x)).split())
+            except Exception:
+                return ' '.join(U(x).split())
+        act = [NT(a) for a in flatten_block(ast.parse(action).body)]      # same else-elimination as the analysed tree
         cands = []
         for s in ifs:
             for test, body in if_chain(s):
-                if test is not None and body and [' '.join(U(b).split()) for b in body[:len(act)]] == act:
+                if test is not None and body and [NT(b) for b in body[:len(act)]] == act:
                     cands.append((s, test))
         if not cands:
             ctx.fail(fn, fn.node, '%s: no branch doing `%s` (%s)' % (fn.qual, action, meaning), stmt='%s lacks: if %s: %s' % (fn.qual, formula, action))
